@@ -27,7 +27,9 @@ Candidates(Bs, k) ==
 \* R = [rrs, ser] is boundary b: the same zone, SOA serial included ("reconstructs the zone as of a
 \* boundary"; a recovery that moved the serial would also make later updates answer with other
 \* serials than an uninterrupted server)
-IsBoundary(R, b) == R.rrs = b.rrs /\ R.ser = b.ser
+\* (b.sg: the server signs the zone itself.  Start-up then signs the recovered zone once more, which
+\* moves the serial by one and is not journaled: the serial may be the boundary's or one ahead.)
+IsBoundary(R, b) == R.rrs = b.rrs /\ (R.ser = b.ser \/ (b.sg /\ R.ser = SerialInc(b.ser)))
 
 \* "The SOA serial after recovery is never lower than any serial the server had answered with":
 \* the serials a client can have seen are those of the boundaries reached; in a server whose
